@@ -33,6 +33,7 @@ theorem wireInv_initPre (v : Variant) (cfg : Cfg) (progs : Tid → List Call) : 
     have := headW2_of_rest hc hr
     rw [fresh_headW2 v cfg _ rfl] at this; cases this
   · intro _; rfl
+  · intro _ t; exact fresh_headW2 v cfg _ rfl
 
 theorem msgInv_initPre (v : Variant) (cfg : Cfg) (progs : Tid → List Call) : MsgInv v cfg (initPre progs) := by
   constructor
